@@ -15,6 +15,7 @@ package main
 //	                     that input, computed with Go's regexp by the generator (the regexp engine is an oracle)
 //	which=0  case = (mask #value (index ...))   one mask, the event is the JSON string #value
 //	obs = (0 (event ...) plugin_counter_delta (mask_counter_delta ...)) | (1 1) Start refused (Fatal) | (2) panic
+//	which=2  the same with do_if answers, metric labels and the configuration route: see gated.go
 
 import (
 	"bytes"
@@ -201,6 +202,9 @@ var (
 var global0 = hx.L(hx.S(""), hx.S(""), hx.I(1), hx.L(), hx.L())
 
 func c17Exec(which int, cs hx.Sx) hx.Sx {
+	if which == 2 {
+		return c17ExecExt(cs)
+	}
 	it := hx.Items(cs)
 	var pl *c17Plugin
 	var fatal bool
@@ -1111,6 +1115,9 @@ func c17Gen(c *hmain.Ctx) {
 	tree("events-history", false, 350*c.Scale, 3, 12)
 	//    and the size / shape thresholds of notes/threshold-audit.txt item 31
 	c17Thresholds(c)
+	//    and the options / second callers of notes/coverage/C17-triage.md: per-mask do_if, metric labels, the configuration
+	//    decoded from JSON text, refused configurations (which=2, gated.go)
+	c17Gated(c)
 }
 
 func main() {
@@ -1120,6 +1127,6 @@ func main() {
 	insaneJSON.DisableBeautifulErrors = true
 	logger.Level.SetLevel(zapcore.ErrorLevel) // cfg.ParseNestedFields warns about every nested / duplicate path
 	hmain.Run(&hmain.Prop{ID: "C17",
-		Rule: "exhaustive: the fixed regexps x every ordered subset of their groups x every value over the tier's alphabet/length x four modes; random regexps from a grammar (nested, alternated, optional, empty groups) x group subsets in every order x multi-byte / invalid UTF-8 text; whole events with 1-3 masks, global and per-mask process/ignore lists over nested objects and arrays, marks, match rules; adversarial configurations; threshold streams (values of 13-19 bytes / 1-5 KiB, long then short, on one instance; 3-12 events per instance; 13-21 selected groups; arrays of 10-25 elements with multi-digit and oddly spelled positions in the lists; roots of 13-24 fields with marks and field lists of 13-30 paths). Non-trivial = the regexp matched the value (value streams) / every whole-event case; distinct = distinct (sub-model, case) text.",
+		Rule: "exhaustive: the fixed regexps x every ordered subset of their groups x every value over the tier's alphabet/length x four modes; random regexps from a grammar (nested, alternated, optional, empty groups) x group subsets in every order x multi-byte / invalid UTF-8 text; whole events with 1-3 masks, global and per-mask process/ignore lists over nested objects and arrays, marks, match rules; adversarial configurations; threshold streams (values of 13-19 bytes / 1-5 KiB, long then short, on one instance; 3-12 events per instance; 13-21 selected groups; arrays of 10-25 elements with multi-digit and oddly spelled positions in the lists; roots of 13-24 fields with marks and field lists of 13-30 paths); option streams (which=2: per-mask do_if gates over 2-5 events of one instance, labelled counters, metric-name clash, the configuration decoded from JSON text, one cause of refusal per case). Non-trivial = the regexp matched the value (value streams) / every whole-event case; distinct = distinct (sub-model, case) text.",
 		Gen:  c17Gen, Exec: c17Exec})
 }
